@@ -154,7 +154,7 @@ Definition m_gen (c : cfg) : meas := MS
             | FMain MStart => ninst c
             | FMain (MExec g) => ninst c - g
             | FGen _ => 1
-            | FPool TGen PRun => 1
+            | FPool TGen PRun | FPool TGen PSkipGen => 1
             | _ => 0 end)
   (fun _ _ => 0) (fun tk => match tk with TGen => 1 | _ => 0 end) (fun _ => 0).
 Definition m_geninst : meas := MS (fun f => match f with FGen _ => 1 | _ => 0 end) (fun _ _ => 0) (fun _ => 0) (fun _ => 0).
